@@ -1014,6 +1014,7 @@ func (c *UConn) handleRenegotiation() error {
 	if err = c.BuildHandshakeState(); err != nil {
 		return err
 	}
+	c.sessionController.aboutToRenegotiate()
 	// [uTLS section ends]
 	if c.handshakeErr = c.clientHandshake(context.Background()); c.handshakeErr == nil {
 		c.handshakes++
